@@ -1,6 +1,7 @@
 package checks
 
 import (
+	"bytes"
 	"context"
 	"encoding/json"
 	"fmt"
@@ -41,11 +42,12 @@ func init() {
 		Assumptions: []string{
 			"bounded reuse (permissive reading of 'serves at most the configured number of successive reads before the source is asked again'): between two successful fetches of a key at most maxreads reads are served FROM CACHE (the fetching read itself is not counted); the tighter count (maxreads in total) is reported as an observation only",
 			"concurrent mixes: reads_ok(key) <= fetches_ok(key) x (maxreads + max calls in flight), the in-flight maximum being measured per case",
-			"a caller may see additional genuine logs attached to shared cached blocks by callers with other filters; required: every log matching the caller's own filter present exactly once, no logIndex twice in a transaction, no log that the chain does not contain at that place",
+			"transparency is read strictly ('same data', 'the same blocks, transactions and filter-matching logs as an uncached client would'): a call's result must equal what the uncached client returns for the same (plan, filter, range) - every log matching the caller's filter exactly once, no logIndex twice in a transaction, nothing the chain lacks, and also no transaction entries, logs of other filters, receipt or trace data that only other callers of the cached segment asked for (key foreign-data-in-result); otherwise the result of a call would depend on what other callers did",
 			"concurrent results are snapshotted under each block's own mutex immediately when the call returns",
 			"a poller refresh counts as 'the source was asked'; a stale head is allowed as long as the (number, hash) pair was announced by the source before the call returned",
 			"every failed call must be explained by an injected fault served during the case (sequential: during that call); poller failures must never surface as errors of Latest",
-			"receipts/traces plans are exercised sequentially only (they write shared cached blocks without the block lock; that is C18's subject)",
+			"a head hash handed to a caller belongs to the caller: the bytes must still be the announced hash of the returned number at the end of the case, whatever the cache did afterwards",
+			"validation-level faults (null last block of a lagging node, last block from another fork, wrong number) are faults like transport failures: the call must fail and the rejected segment must not be served from cache",
 		},
 		NCases: func(tier string) int {
 			if tier == "thorough" {
@@ -88,6 +90,36 @@ type c08Ev struct {
 type c08Fault struct {
 	target string // event kind to hit
 	kind   simnode.FailKind
+	// rewrite: a validation-level fault of a segment fetch (the transport succeeds, the
+	// client has to reject what it decoded): null-last (lagging node), fork-straddle
+	// (the last block comes from another fork: broken parent link), wrong-number.
+	rewrite string
+}
+
+var c08Rewrites = []string{"null-last", "fork-straddle", "wrong-number"}
+
+// c08RewriteMut turns a validation-level fault into a mutation of a block batch.
+func c08RewriteMut(rewrite string, key c08Key) simnode.Mut {
+	last := int(key.limit) - 1
+	m := simnode.Mut{Seq: 0, Elem: last, Item: -1, Sub: -1}
+	switch {
+	case rewrite == "fork-straddle" && key.limit >= 2:
+		m.Kind = "break-parent"
+	case rewrite == "wrong-number":
+		m.Kind, m.Elem, m.Arg = "renumber-far", last/2, int64(key.start+key.limit+1000)
+	default:
+		m.Kind = "null-result"
+	}
+	return m
+}
+
+// c08PickFault draws a transport-level or (segment fetches only) validation-level fault.
+func c08PickFault(r *vk.RNG, target string) *c08Fault {
+	f := &c08Fault{target: target, kind: vk.Pick(r, c08FaultKinds)}
+	if target == "seg" && r.Chance(2, 5) {
+		f.kind, f.rewrite = simnode.FailNone, vk.Pick(r, c08Rewrites)
+	}
+	return f
 }
 
 type c08Rec struct {
@@ -96,13 +128,14 @@ type c08Rec struct {
 	announced   map[string]bool
 	nextFault   *c08Fault
 	faultAt     map[int]simnode.FailKind // by ordinal among non-poller requests of the caching client
+	rewriteAt   map[int]string           // same ordinals: validation-level fault if the request is a segment fetch
 	pollFaultAt map[int]simnode.FailKind // by poller ordinal
 	nonPollN    int
 	pollN       int
 }
 
 func newC08Rec() *c08Rec {
-	return &c08Rec{announced: map[string]bool{}, faultAt: map[int]simnode.FailKind{}, pollFaultAt: map[int]simnode.FailKind{}}
+	return &c08Rec{announced: map[string]bool{}, faultAt: map[int]simnode.FailKind{}, rewriteAt: map[int]string{}, pollFaultAt: map[int]simnode.FailKind{}}
 }
 
 func c08Pair(n uint64, h string) string { return fmt.Sprintf("%d:%s", n, h) }
@@ -128,27 +161,38 @@ func (rc *c08Rec) hook(info *simnode.ReqInfo) simnode.Action {
 		}
 	}
 	rc.mu.Lock()
-	fk := simnode.FailNone
+	fk, rw := simnode.FailNone, ""
 	if info.Poller {
 		fk = rc.pollFaultAt[rc.pollN]
 		rc.pollN++
 	} else {
 		if f := rc.nextFault; f != nil && f.target == ev.kind {
-			fk = f.kind
+			fk, rw = f.kind, f.rewrite
 			rc.nextFault = nil
 		}
 		if k, ok := rc.faultAt[rc.nonPollN]; ok {
-			fk = k
+			fk, rw = k, rc.rewriteAt[rc.nonPollN]
 		}
 		rc.nonPollN++
 	}
+	if rw != "" && ev.kind != "seg" {
+		rw = "" // only block batches can fail validation; the transport-level kind applies
+	}
 	ev.failed, ev.fault = fk != simnode.FailNone, fk.String()
+	if rw != "" {
+		fk = simnode.FailNone
+		ev.failed, ev.fault = true, "validation:"+rw
+	}
 	idx := len(rc.evs)
 	rc.evs = append(rc.evs, ev)
 	rc.mu.Unlock()
 	act.Fail = fk
 	if fk == simnode.FailHTTP {
 		act.Status = 503
+	}
+	if rw != "" {
+		mut, exKind := c08RewriteMut(rw, ev.key), kind
+		act.Rewrite = func(elems []string) []string { return mut.ApplyElems(0, exKind, elems, nil) }
 	}
 	if (ev.kind == "head" || ev.kind == "poll") && fk == simnode.FailNone {
 		act.Rewrite = func(elems []string) []string {
@@ -431,6 +475,48 @@ func c08CheckResult(chain *simnode.Chain, sh *c08Shape, start, limit uint64, sna
 	return "", ""
 }
 
+// c08FullView lists everything a snapshot contains: every transaction entry with every log,
+// receipt field and trace, whether or not the call's plan and filter asked for it.
+func c08FullView(snap []c08Blk) []string {
+	var out []string
+	for i := range snap {
+		sb := &snap[i]
+		out = append(out, fmt.Sprintf("B %d %s %s %d", sb.num, sb.hash, sb.parent, sb.time))
+		txs := append([]c08Tx(nil), sb.txs...)
+		sort.Slice(txs, func(a, b int) bool { return txs[a].idx < txs[b].idx })
+		for _, tx := range txs {
+			var ls []string
+			for _, l := range tx.logs {
+				ls = append(ls, l.content)
+			}
+			sort.Strings(ls)
+			out = append(out, fmt.Sprintf(" T %d %s body %d %s rcpt %d %d {%s} <%s>", tx.idx, tx.hash, tx.nonce, tx.value, tx.status, tx.gasUsed,
+				strings.Join(ls, ";"), strings.Join(tx.traces, ";")))
+		}
+	}
+	return out
+}
+
+// c08Ref is what the uncached client returns for a call.
+type c08Ref struct {
+	match []string // the part the statement names: blocks, transactions, filter-matching logs
+	full  []string // everything
+}
+
+// c08VsUncached compares a cached result with the uncached twin of the same call. The
+// caller-relevant part differing is "differs-from-uncached"; when only the rest differs
+// the cached result carries data of other callers (logs of other filters, receipt or
+// trace data the plan never asked for): "foreign-data-in-result".
+func c08VsUncached(chain *simnode.Chain, sh *c08Shape, snap []c08Blk, ref c08Ref) (what string, got []string, want []string) {
+	if m := c08MatchingView(chain, sh, snap); strings.Join(m, "\n") != strings.Join(ref.match, "\n") {
+		return "differs-from-uncached", m, ref.match
+	}
+	if f := c08FullView(snap); strings.Join(f, "\n") != strings.Join(ref.full, "\n") {
+		return "foreign-data-in-result", f, ref.full
+	}
+	return "", nil, nil
+}
+
 // c08MatchingView lists the caller-relevant content of a snapshot (for the comparison with the uncached client).
 func c08MatchingView(chain *simnode.Chain, sh *c08Shape, snap []c08Blk) []string {
 	var out []string
@@ -535,20 +621,20 @@ func c08Keys(r *vk.RNG, many bool) [][2]uint64 {
 }
 
 // uncached reference for a call: must succeed and equal ground truth exactly.
-func c08Uncached(c *vk.Case, node *simnode.Node, chain *simnode.Chain, call c08Call) ([]string, bool) {
+func c08Uncached(c *vk.Case, node *simnode.Node, chain *simnode.Chain, call c08Call) (c08Ref, bool) {
 	cl := jrpc2.New(node.URL("nocache"))
 	blocks, err := cl.Get(context.Background(), node.URL("nocache"), call.sh.filter, call.start, call.limit)
 	if err != nil {
 		c.Inconclusive("uncached reference Get %s failed: %v", call, err)
-		return nil, false
+		return c08Ref{}, false
 	}
 	snap := c08Snapshot(blocks)
 	if what, msg := c08CheckResult(chain, call.sh, call.start, call.limit, snap, true); what != "" {
 		c.Inconclusive("uncached reference Get %s differs from the chain (%s: %s)", call, what, msg)
-		return nil, false
+		return c08Ref{}, false
 	}
 	c.Obs("uncached_comparisons", 1)
-	return c08MatchingView(chain, call.sh, snap), true
+	return c08Ref{match: c08MatchingView(chain, call.sh, snap), full: c08FullView(snap)}, true
 }
 
 // c08HitRatio: the summed surplus is positive iff more than 30 % of all Get calls were cache hits.
@@ -598,7 +684,7 @@ func c08RunSeq(c *vk.Case, many bool) {
 		fetched    bool
 	}
 	st := map[c08Key]*keyState{}
-	ref := map[string][]string{}
+	ref := map[string]c08Ref{}
 	var (
 		trace         []string
 		calls, hits   int64
@@ -624,9 +710,9 @@ func c08RunSeq(c *vk.Case, many bool) {
 		shapesUsed[call.sh.name] = true
 		var fault *c08Fault
 		if r.Chance(15, 100) {
-			fault = &c08Fault{target: "seg", kind: vk.Pick(r, c08FaultKinds)}
+			fault = c08PickFault(r, "seg")
 			if r.Bool() && (call.sh.filter.UseLogs || call.sh.filter.UseReceipts || call.sh.filter.UseTraces) {
-				fault.target = "aux"
+				fault = c08PickFault(r, "aux")
 			}
 		}
 		rc.setFault(fault)
@@ -685,10 +771,10 @@ func c08RunSeq(c *vk.Case, many bool) {
 				}
 				ref[rk] = v
 			}
-			if got := c08MatchingView(chain, call.sh, snap); strings.Join(got, "\n") != strings.Join(ref[rk], "\n") {
+			if what, got, want := c08VsUncached(chain, call.sh, snap, ref[rk]); what != "" {
 				d := detail()
-				d["cached"], d["uncached"] = got, ref[rk]
-				c.Violate("c08:"+wl+":differs-from-uncached", d, "cached Get %s differs from what the uncached client returns", call)
+				d["cached"], d["uncached"] = got, want
+				c.Violate("c08:"+wl+":"+what, d, "cached Get %s differs from what the uncached client returns for the same call (%s)", call, what)
 			}
 			if !segOK && !segFail {
 				hits++
@@ -763,12 +849,7 @@ func c08RunConc(c *vk.Case) {
 	maxreads := r.Range(1, 6)
 	cl := jrpc2.New(node.URL("")).WithMaxReads(maxreads)
 	url := node.URL("")
-	var shapes []*c08Shape
-	for _, sh := range c08Shapes() {
-		if !sh.seqOnly {
-			shapes = append(shapes, sh)
-		}
-	}
+	shapes := c08Shapes() // every reader owns its blocks, so receipts and traces plans take part too
 	mix := []string{"same-range", "overlap", "many"}[r.Intn(3)]
 	var keys [][2]uint64
 	switch mix {
@@ -806,7 +887,7 @@ func c08RunConc(c *vk.Case) {
 		}
 	}
 	// uncached references first (sequential, not counted, not faulted)
-	ref := map[string][]string{}
+	ref := map[string]c08Ref{}
 	for g := range plans {
 		for _, t := range plans[g] {
 			if _, ok := ref[t.call.String()]; !ok {
@@ -826,8 +907,11 @@ func c08RunConc(c *vk.Case) {
 	faultKinds := map[string]bool{}
 	rc.mu.Lock()
 	for i := 0; i < nf; i++ {
-		fk := vk.Pick(r, c08FaultKinds)
-		rc.faultAt[r.Intn(total+total/2)] = fk
+		f, at := c08PickFault(r, "seg"), r.Intn(total+total/2)
+		if f.rewrite != "" {
+			f.kind = simnode.FailRPCError // used when the ordinal turns out not to be a segment fetch
+		}
+		rc.faultAt[at], rc.rewriteAt[at] = f.kind, f.rewrite
 	}
 	rc.mu.Unlock()
 	type result struct {
@@ -933,10 +1017,10 @@ func c08RunConc(c *vk.Case) {
 			d["problem"], d["call"] = msg, res.call.String()
 			c.Violate("c08:conc:"+what, d, "concurrent cached Get %s differs from the chain: %s", res.call, msg)
 		}
-		if got := c08MatchingView(chain, res.call.sh, res.snap); strings.Join(got, "\n") != strings.Join(ref[res.call.String()], "\n") {
+		if what, got, want := c08VsUncached(chain, res.call.sh, res.snap, ref[res.call.String()]); what != "" {
 			d := detail()
-			d["cached"], d["uncached"], d["call"] = got, ref[res.call.String()], res.call.String()
-			c.Violate("c08:conc:differs-from-uncached", d, "concurrent cached Get %s differs from what the uncached client returns", res.call)
+			d["cached"], d["uncached"], d["call"] = got, want, res.call.String()
+			c.Violate("c08:conc:"+what, d, "concurrent cached Get %s differs from what the uncached client returns for the same call (%s)", res.call, what)
 		}
 	}
 	switch {
@@ -983,6 +1067,24 @@ func c08RunConc(c *vk.Case) {
 	c.Sample(detail())
 }
 
+// c08Held is a head hash as a caller received it, next to a private copy taken at once.
+type c08Held struct {
+	n    uint64 // floor the caller passed
+	num  uint64
+	hash []byte // the very slice Latest returned
+	copy []byte
+}
+
+// c08HeldChanged returns the first held hash whose bytes are no longer what the caller was given.
+func c08HeldChanged(held []c08Held) *c08Held {
+	for i := range held {
+		if !bytes.Equal(held[i].hash, held[i].copy) {
+			return &held[i]
+		}
+	}
+	return nil
+}
+
 // ---------------------------------------------------------------- head cache, sequential script
 
 func c08RunHeadSeq(c *vk.Case) {
@@ -999,6 +1101,7 @@ func c08RunHeadSeq(c *vk.Case) {
 	var (
 		calls, hitsTotal int64
 		hits             int // cache-served reads since the source was last asked
+		held             []c08Held
 		lastNum          uint64
 		trace            []string
 		faultKinds       = map[string]bool{}
@@ -1088,6 +1191,7 @@ func c08RunHeadSeq(c *vk.Case) {
 				c.Violate("c08:head-seq:pair-differs-from-fetch", detail(), "Latest(%d) asked the source, was told (%d,%s) and returned (%d,%x)", n, fetched.num, fetched.hash, num, hash)
 			}
 			lastNum = num
+			held = append(held, c08Held{n, num, hash, append([]byte(nil), hash...)})
 			if !asked && !failedFetch {
 				hits++
 				hitsTotal++
@@ -1099,6 +1203,13 @@ func c08RunHeadSeq(c *vk.Case) {
 					maxPerAsk = hits
 				}
 			}
+		}
+		// every hash handed out so far must still hold the bytes its caller received
+		if h := c08HeldChanged(held); h != nil {
+			d := detail()
+			d["returned"], d["now"] = fmt.Sprintf("Latest(%d)=(%d,%x)", h.n, h.num, h.copy), fmt.Sprintf("%x", h.hash)
+			c.Violate("c08:head-seq:returned-hash-mutated-later", d, "the hash slice returned by an earlier Latest(%d)=(%d,%x) now reads %x (announced pair? %v)", h.n, h.num, h.copy, h.hash, rc.isAnnounced(h.num, c07Hex(h.hash)))
+			held = nil
 		}
 		if asked {
 			if hits >= maxreads {
@@ -1165,6 +1276,8 @@ func c08RunHeadPoll(c *vk.Case) {
 		nCalls    int64
 		nErr      int64
 		bad       []string
+		held      []c08Held
+		mutated   string
 		anErr     string
 		lastSeen  uint64
 		inflight  int32
@@ -1194,6 +1307,10 @@ func c08RunHeadPoll(c *vk.Case) {
 			if !ok {
 				bad = append(bad, fmt.Sprintf("Latest(%d)=(%d,%x)", n, num, hash))
 			}
+			held = append(held, c08Held{n, num, hash, append([]byte(nil), hash...)})
+		}
+		if h := c08HeldChanged(held); h != nil && mutated == "" {
+			mutated = fmt.Sprintf("Latest(%d)=(%d,%x) now reads %x", h.n, h.num, h.copy, h.hash)
 		}
 		mu.Unlock()
 	}
@@ -1328,6 +1445,13 @@ func c08RunHeadPoll(c *vk.Case) {
 	mi := int(atomic.LoadInt32(&maxIn))
 	detail := map[string]any{"workload": "head-poll", "maxreads": maxreads, "goroutines": G, "latest_calls": nCalls, "errors": nErr, "source_asked": asks,
 		"poller_resets": resets, "poll_fault": pollFault.String(), "chain_events": len(script), "max_in_flight": mi}
+	if h := c08HeldChanged(held); h != nil && mutated == "" {
+		mutated = fmt.Sprintf("Latest(%d)=(%d,%x) now reads %x", h.n, h.num, h.copy, h.hash)
+	}
+	if mutated != "" {
+		detail["mutated"] = mutated
+		c.Violate("c08:head-poll:returned-hash-mutated-later", detail, "a hash slice returned by Latest changed after the call returned: %s", mutated)
+	}
 	if len(bad) > 0 {
 		detail["not_announced"] = bad
 		c.Violate("c08:head-poll:pair-not-announced", detail, "Latest returned %s, a pair the source had not announced", bad[0])
